@@ -167,6 +167,8 @@ def checkRpdac (strsHex queriesHex prefHex t rules seqs loc abs pre : String) : 
   if modAbs != implAbs.map some then "V model-locate-differs-from-code-on-a-query" else
   if modLoc != (S.map fun s => some (Spec.locate S s)) then "V model-locate-differs-from-spec" else
   if modAbs != (Q.map fun q => some (Spec.locate S q)) then "V model-locate-differs-from-spec-on-a-query" else
+  -- the table scan of the model iterator on the real structures
+  if RPDAC.extractTable d != some (S.map nat) then "V model-extractTable-differs-from-spec" else
   -- prefix search: the model on the real structures vs the code's ranges vs the specification
   let P : List Str := (splitComma prefHex).map unhex
   let implPre := (splitComma pre).map fun e =>
